@@ -4,3 +4,4 @@ import CobaldVerif.Props.C07
 import CobaldVerif.Props.C08
 import CobaldVerif.Props.C17
 import CobaldVerif.Props.C19
+import CobaldVerif.Props.C14
